@@ -384,7 +384,7 @@ def run(chk):
         chk.traces += 1
     # 2b. the same on single-scheme contexts of every scheme with a cost: stored hashes at every cost of the table meet every window
     for nm in [n for n in T if T[n]["P"]]:
-        nb1 = 120 if quick else 2500
+        nb1 = 100 if quick else 800
         c = consts_for(T, [nm], True, MaxOps=10, MaxStore=3)
         r = tlc.run_instance("MC_Context", c, name="C04_sim1", invariants=INVS, action_constraint="Emit", next="SimNext",
                              simulate=f"num={nb1}", depth=10, seed=chk.seed + 17, workers=1, coverage=False, timeout=3000)
